@@ -250,7 +250,7 @@ func (option *Option) Set(value *string) error {
 	option.preventDefault = true
 	option.clearReferenceBeforeSet = false
 
-	if len(option.Choices) != 0 {
+	if len(option.Choices) != 0 && value != nil {
 		found := false
 
 		for _, choice := range option.Choices {
